@@ -330,7 +330,7 @@ def explore(copia, uni_blob, seed, root, max_states=None, alt_every=10, dry_ever
 
 
 FAULT_KINDS = ["stale_bak", "absent", "zero", "trunc", "garbage", "wrong_shape", "version0", "version2", "foreign_pair",
-               "other_order_copied", "only_bak", "only_tmp", "no_version", "version_renamed", "version_string", "no_pair"]
+               "other_order_copied", "only_bak", "only_tmp", "no_version", "version_renamed", "version_string", "no_pair", "unknown_ftype", "entry_not_object"]
 
 
 def fault_state(job):
@@ -370,6 +370,20 @@ def fault_state(job):
                 d["schema"] = 2
             elif kind == "version_string":
                 d["format_version"] = "1.0" if v == 1 else str(v)
+        open(path, "wb").write(json.dumps(d, indent=2).encode())
+    elif kind in ("unknown_ftype", "entry_not_object"):
+        # wrong shape INSIDE the entries: one entry of an entry type this version does not know / that is not an object at
+        # all.  An archive is trusted as a whole or not at all.
+        d = json.loads(raw)
+        names = sorted(d["entries"])
+        if names:
+            victim = names[(param or 0) % len(names)]
+            if kind == "unknown_ftype":
+                d["entries"][victim]["ftype"] = "Directory"
+            else:
+                d["entries"][victim] = "gone"
+        else:
+            d["entries"] = {"ghost": {"blake3": [0] * 32, "ftype": "Directory"}} if kind == "unknown_ftype" else {"ghost": 7}
         open(path, "wb").write(json.dumps(d, indent=2).encode())
     elif kind == "foreign_pair":
         d = json.loads(raw)
